@@ -94,6 +94,9 @@ def _write_sample(path, genes_haps, hole_genes, all_genes, ctg, rng, depth=DEPTH
         for hi, h in enumerate(haps):
             c = gen_reads.haplotype(gene, ctg, h[0], h[1], weak=bool(h[2]) if len(h) > 2 else False, background=False)
             reads += gen_reads.tile(c, ctg, READ_LEN, depth, prefix=f"g{gi}h{hi}", offset=rng.randrange(READ_LEN) if hi else 0)
+    for gi, (gene, haps) in enumerate(genes_haps):   # junk the quality filters must drop (low mapping / base quality)
+        w = gene.get_wide_region()
+        reads += gen_reads.noise_reads(ctg, max(0, w.start), min(CONTIG_LEN, w.end), 25, READ_LEN, rng, prefix=f"junk{gi}")
     occ = _occupied(all_genes)
     for g in hole_genes:
         w = g.get_wide_region()
@@ -187,12 +190,35 @@ def build_real_world():
             "samples": {"s1": {"bam": os.path.join(res, "NA10860.bam")}}}
 
 
+def _has_added(spec):
+    w = World(spec, 0)
+    for g in ("A", "B"):
+        w.ensure_chain(g)
+    n = int(any(sa.added for s in w.live["B"]["minor"] for sa in s.solution))
+    return n, all(bool(w.live[g]["minor"]) for g in ("A", "B"))
+
+
 def build_syn_world(seed, shipped="nudt15"):
+    """Synthetic-evidence world; the seed is advanced until both genes are genotyped and (if possible) a refinement
+    ADDS a variant (tried in forked children: the parent stays pristine)."""
     from . import genes as G
 
-    return {"kind": "syn", "seed": seed, "genome": "hg19",
-            "genes": {"A": {"yml": G.toy_path(), "name": "TOY", "genome": "hg19"},
-                      "B": {"yml": os.path.join(G.genes_dir(), shipped + ".yml"), "name": shipped.upper(), "genome": "hg19"}}}
+    best = None
+    for k in range(10):
+        spec = {"kind": "syn", "seed": seed + k, "genome": "hg19",
+                "genes": {"A": {"yml": G.toy_path(), "name": "TOY", "genome": "hg19"},
+                          "B": {"yml": os.path.join(G.genes_dir(), shipped + ".yml"), "name": shipped.upper(), "genome": "hg19"}}}
+        try:
+            n, ok = _in_fork(_has_added, spec)
+        except RuntimeError:
+            continue
+        if ok and (best is None or n > best[0]):
+            best = (n, spec)
+        if ok and n == 1:
+            break
+    if best is None:
+        raise RuntimeError(f"no synthetic world with solutions for {shipped}")
+    return best[1]
 
 
 # =========================================================================== values
@@ -346,7 +372,15 @@ class World:
             a = rng.choice(cands)
             bag.append((a, rng.choice(sorted(gene.alleles[a].minors))))
             struct.append("1")
-        table = evidence.plant(gene, bag, depth=20)
+        # one copy also carries ONE core variant of an allele that is defined by several (that allele cannot be called,
+        # so the variant is reported as novel and the refinement has to ADD it to a copy: this is where the tie-break
+        # weights of minor.py:446-452 enter the score)
+        own = set().union(*[evidence.allele_variants(gene, a, mi) for a, mi in bag])
+        stray = sorted(m for a in cands if len(gene.alleles[a].func_muts) >= 2 for m in gene.alleles[a].func_muts
+                       if m not in own and not m.op.startswith("ins") and all(m.pos != o.pos for o in own)
+                       and not any(al.func_muts and al.func_muts <= (own | {m}) and m in al.func_muts for al in gene.alleles.values()))
+        extra = [rng.choice(stray)] if stray and self.spec.get("stray", True) else []
+        table = evidence.plant(gene, bag, depth=20, extra_variants=[set(extra), set()])
         table = evidence.perturb(rng, table, level=0.15)
         del dele
         return bag, struct, table
@@ -370,7 +404,9 @@ class World:
             from . import evidence
 
             bag, struct, table = self._syn_tables(g)
-            cov = evidence.make_coverage(gene, Profile("verif"), table)
+            lrng = random.Random(self.rng_seed * 31 + len(table))
+            low = {p: {op: (lrng.randint(1, 4), lrng.randint(0, 3)) for op in ops} for p, ops in sorted(table.items()) if lrng.random() < 0.5}
+            cov = evidence.make_coverage(gene, Profile("verif"), table, low)   # + observations the quality filter must drop
             cov.sam = types.SimpleNamespace(name="SYN", _fusion_counter=None, phases={}, is_long_read=False)
             cov._region_coverage = {(gi, r): float(sum(gene.cn_configs[c].cn[gi][r] for c in struct))
                                     for gi, gr in enumerate(gene.regions) for r in gr}
@@ -961,7 +997,8 @@ def refine_family(fam):
         for pos, j in enumerate(L):
             mine = [r for r in res if r.major_solution is sols[pos]]
             carried = pool[j][2] - mins
-            copies = sorted([[sa.major, sa.minor, sorted(str(m) for m in sa.added), sorted(str(m) for m in sa.missing)] for sa in r.solution]
+            # a refinement = the multiset of refined copies (the position of a copy in the list is not part of it)
+            copies = sorted(sorted([sa.major, sa.minor, sorted(str(m) for m in sa.added), sorted(str(m) for m in sa.missing)] for sa in r.solution)
                             for r in mine)
             v = mk_value({"cand": j, "refinement": copies}, [round(r.score - carried, 9) + 0.0 for r in mine])
             dg = value_digests(v)
